@@ -188,7 +188,7 @@ class Conn:
             self.send(isserver, 22, b"".join(msgs[i:i + g]), "hs")
             i += g
 
-    def handshake(self, shape="full", server_group=None, client_group=None, tickets=0, ticket_before_ccs=False, hs13_group=None, pad13=0, hs13_cuts=None):
+    def handshake(self, shape="full", server_group=None, client_group=None, tickets=0, ticket_before_ccs=False, hs13_group=None, pad13=0, hs13_cuts=None, hs12_cuts=None):
         r = self.rng
         self.send(False, 22, self.client_hello(), "ch")
         if self.version == "TLS13":
@@ -222,7 +222,23 @@ class Conn:
         fin = lambda: hs_msg(20, self.rb(36 if self.version == "SSL30" else 12))
         if shape == "full":
             smsgs = [self.server_hello(), hs_msg(11, (3 + 80).to_bytes(3, "big") + (80).to_bytes(3, "big") + self.rb(80)), hs_msg(14, b"")]
-            self.send_hs(True, smsgs, server_group or [1, 1, 1])
+            if hs12_cuts is not None:
+                # RFC 5246 6.2.1: handshake messages may be fragmented across records.  The ServerHello keeps a record of its own; the rest of
+                # the flight (a longer Certificate, ServerHelloDone) is cut at arbitrary bytes, and every continuation record is made to start
+                # with a byte that reads as a message type (1 = ClientHello, 2 = ServerHello) where the cut falls inside the certificate
+                cert = self.rb(700)
+                rest = bytearray(hs_msg(11, (3 + len(cert)).to_bytes(3, "big") + len(cert).to_bytes(3, "big") + cert) + hs_msg(14, b""))
+                cuts = sorted(set(x % len(rest) for x in hs12_cuts if x % len(rest)))
+                for c in cuts:
+                    if 10 <= c < 10 + len(cert):
+                        rest[c] = r.choice([1, 2, rest[c]])
+                self.send(True, 22, smsgs[0], "sh")
+                o = 0
+                for c in cuts + [len(rest)]:
+                    self.send(True, 22, bytes(rest[o:c]), "hs")
+                    o = c
+            else:
+                self.send_hs(True, smsgs, server_group or [1, 1, 1])
             self.send_hs(False, [hs_msg(16, struct.pack(">H", 48) + self.rb(48))], client_group or [1])
             self.send(False, 20, b"\x01", "ccs")
             self._activate(self.c, False)
